@@ -102,16 +102,19 @@ def allocBoundsB (s : State) : Bool := s.allocs.all fun (_, al) => 0 ≤ al.used
 def quotaConservedB (s : State) : Bool :=
   s.subs.all fun (i, x) => bought s x == some (grantedTotal s i)
 
-/-- LifeInv without the bound `M`. -/
+/-- LifeInv without the bound `M` (the coupling between a session and its subscription; C03). -/
 def lifecycleB (s : State) : Bool :=
   s.sessions.all (fun (_, x) =>
-    (x.status == .StatusActive || x.status == .StatusInactivePending) &&
     match s.subs.get x.sub with
     | none => false
     | some y => (x.status != .StatusActive || y.status == .StatusActive) &&
-                (y.status != .StatusInactivePending || x.inactiveAt ≤ y.inactiveAt)) &&
+                (y.status != .StatusInactivePending || x.inactiveAt ≤ y.inactiveAt))
+
+/-- C04/C08: stored sessions and subscriptions are active or inactive-pending, and a holder has at
+most one active session per subscription, which is the latest one. -/
+def statusesB (s : State) : Bool :=
+  s.sessions.all (fun (_, x) => x.status == .StatusActive || x.status == .StatusInactivePending) &&
   s.subs.all (fun (_, y) => y.status == .StatusActive || y.status == .StatusInactivePending) &&
-  -- at most one active session per (subscription, account), and it is the latest
   s.sessions.all (fun (i, x) => x.status != .StatusActive ||
     s.sessions.all (fun (j, z) => !(z.sub == x.sub && z.addr == x.addr) || j ≤ i))
 
@@ -163,7 +166,7 @@ def swapsB (s : State) : Bool := keysNodupB s.swaps && s.swaps.all (fun (h, w) =
 def stateMonitors (s : State) : List (String × Bool) := [
   ("backed", backedB s), ("supply", supplyB s), ("counters", countersB s), ("partitions", partitionsB s),
   ("nodeIdx", nodeIdxB s), ("sessIdx", sessIdxB s), ("subIdx", subIdxB s), ("allocBounds", allocBoundsB s),
-  ("quotaConserved", quotaConservedB s), ("lifecycle", lifecycleB s), ("escrowSplit", escrowSplitB s),
+  ("quotaConserved", quotaConservedB s), ("lifecycle", lifecycleB s), ("statuses", statusesB s), ("escrowSplit", escrowSplitB s),
   ("prices", pricesB s), ("swaps", swapsB s)]
 
 /-- `V` lines for the failing monitors (`afterEnd` adds the block-boundary monitors). -/
